@@ -664,15 +664,25 @@ def corpus_witnesses(r):
 
 
 def _covered_functions():
+    """the anchored functions by name, plus every PRIVATE helper (leading underscore) of the same module / class, taken
+    dynamically, so that extracting a helper out of an anchored function keeps its lines under measurement"""
+    import inspect
     from pyins import error_model
     from pyins.error_model import InsErrorModel
-    return {'InsErrorModel.system_matrices': InsErrorModel.system_matrices,
-            'InsErrorModel._transform_3d_2d': InsErrorModel._transform_3d_2d,
-            'propagate_errors': error_model.propagate_errors,
-            '_phi_to_delta_rph': error_model._phi_to_delta_rph,
-            'InsErrorModel._transform_to_output_3d': InsErrorModel._transform_to_output_3d,
-            'InsErrorModel.transform_to_output': InsErrorModel.transform_to_output,
-            'InsErrorModel.transform_to_internal': InsErrorModel.transform_to_internal}
+    named = {'InsErrorModel.system_matrices': InsErrorModel.system_matrices,
+             'InsErrorModel.transform_to_output': InsErrorModel.transform_to_output,
+             'InsErrorModel.transform_to_internal': InsErrorModel.transform_to_internal,
+             'propagate_errors': error_model.propagate_errors}
+    for nm, f in vars(error_model).items():
+        if nm.startswith('_') and not nm.startswith('__') and inspect.isfunction(f) and \
+                f.__module__ == error_model.__name__:
+            named[nm] = f
+    for nm, f in vars(InsErrorModel).items():
+        if nm.startswith('_') and not nm.startswith('__'):
+            g = f.__func__ if isinstance(f, (classmethod, staticmethod)) else f
+            if inspect.isfunction(g):
+                named['InsErrorModel.' + nm] = g
+    return named
 
 
 def check(r):
